@@ -95,7 +95,7 @@ func modeFor(prop string) (*histMode, error) {
 			roracle: hist.CheckMinVVExact}, nil
 	case "C04":
 		return &histMode{flavors: []string{"counter", "object", "array", "mixed"}, proto: true,
-			gen: hist.GenConfig{NoMovedSet: true, MinClients: 2, MaxClients: 5, MinSteps: 6, MaxSteps: 40, Inflight: true, PushOnly: true, Retry: true, Racing: true, Detach: true, Presence: true},
+			gen: hist.GenConfig{NoMovedSet: true, MinClients: 2, MaxClients: 5, MinSteps: 6, MaxSteps: 40, Inflight: true, PushOnly: true, Retry: true, LostRetry: true, Racing: true, Detach: true, Presence: true},
 			oracle: func(h *hist.History, o *hist.Outcome) []hist.Problem {
 				var ps []hist.Problem
 				for _, p := range hist.CheckLog(o) {
@@ -180,6 +180,10 @@ func runHist(cfg *config) error {
 	}
 	if f := x["flavor"]; f != "" {
 		mode.flavors = strings.Split(f, "+")
+	}
+	if x["compact"] == "1" { // C20: histories with compactions (the cache entry must not survive the log reset)
+		mode.gen.Compact = true
+		mode.gen.Detach = true
 	}
 	ctx := context.Background()
 	srv, err := sim.Start(cfg.out, sim.Options{})
